@@ -190,7 +190,7 @@ class Ctx:
             meta = os.path.dirname(meta)
             cmd = ["java", "-Xss256m", "-Xmx" + xmx, "-XX:+UseParallelGC", "-DTLA-Library=" + SPEC,
                    "-cp", TLA_JARS, "tlc2.TLC", "-metadir", meta, "-config", cfg,
-                   "-workers", str(workers or "auto")]
+                   "-workers", str(workers or "auto"), "-noGenerateSpecTE"]
             if not deadlock:
                 cmd += ["-deadlock"]
             if simulate:
@@ -379,6 +379,11 @@ class Ctx:
         os.makedirs(evdir, exist_ok=True)
         with open(os.path.join(evdir, self.prop + ".json"), "w") as f:
             json.dump(ev, f, indent=1, default=str)
+        if self.violations:
+            import collections
+            cls = collections.Counter(re.sub(r"[0-9]+", "#", v["what"])[:110] for v in self.violations)
+            for w, n in cls.most_common(12):
+                self.log("violation class x%d: %s" % (n, w))
         self.log("done: states=%d transitions=%d traces=%d evaluations=%d violations=%d known=%d wall=%.1fs" % (
             self.states, self.transitions, self.traces, self.evaluations, len(self.violations),
             len(self.known_hits), wall))
